@@ -95,6 +95,31 @@ theorem computational_step (code : Array Byte) (s : VM) (op : Nat) (ws ws' : Lis
   Proofs.computational_step code s op ws ws' hop hcode hstack hlen happ hgas
 
 
+/-- program level: running any program from a state that is at a computational opcode is running it from the
+state with the specified result, the specified gas charged and everything else untouched — whatever the rest of
+the program stores or returns is computed from the specified value -/
+theorem computational_run (code : Array Byte) (s : VM) (op : Nat) (ws ws' : List (BitVec 256)) (fuel : Nat)
+    (hop : op ∈ Spec.computational) (hcode : (code.getD s.pc 0).toNat = op)
+    (hstack : s.stack = enc ws) (hlen : ws.length ≤ 1024)
+    (happ : Spec.apply op ws = some ws') (hgas : Spec.gas op ws ≤ s.gas) :
+    run code (fuel + 1) s =
+      run code fuel { s with stack := enc ws', gas := s.gas - Spec.gas op ws, pc := s.pc + 1 } := by
+  rw [run, Proofs.computational_step code s op ws ws' hop hcode hstack hlen happ hgas]
+
+/-- too few operands: the step fails with a stack underflow (and the caller consumes all gas) -/
+theorem computational_underflow (code : Array Byte) (s : VM) (op : Nat)
+    (hop : op ∈ Spec.computational) (hcode : (code.getD s.pc 0).toNat = op)
+    (hlen : s.stack.length < Spec.arityOf op) : step code s = .fail .underflow :=
+  Proofs.computational_underflow code s op hop hcode hlen
+
+/-- less than the specified gas: the step fails with out-of-gas, never with a result -/
+theorem computational_out_of_gas (code : Array Byte) (s : VM) (op : Nat) (ws ws' : List (BitVec 256))
+    (hop : op ∈ Spec.computational) (hcode : (code.getD s.pc 0).toNat = op)
+    (hstack : s.stack = enc ws) (hlen : ws.length ≤ 1024)
+    (happ : Spec.apply op ws = some ws') (hgas : s.gas < Spec.gas op ws) :
+    step code s = .fail .oog :=
+  Proofs.computational_out_of_gas code s op ws ws' hop hcode hstack hlen happ hgas
+
 /-! ### 5. memory and storage opcodes read back what was written
 (stated on successful steps: `step … = .next …` means the stack and gas checks of the loop passed) -/
 
